@@ -167,6 +167,8 @@ def _work(job):
         for fn, sc, schedule in corpus_cases(pid):
             r = replay_run(sc, schedule)
             out.append(_digest(r, pid, 'corpus:' + fn))
+            r = datarun.run_scenario(sc, dsched.ListChooser(schedule), eager=('writer',))
+            out.append(_digest(r, pid, 'corpus:' + fn))
     return kind, info, out
 
 
